@@ -243,3 +243,10 @@ Proof.
   - cbn [scenario_weights] in H. discriminate H.
   - rewrite scenario_weights_known in H by exact Hf. exact (spread_counts_panic ws H).
 Qed.
+
+Lemma scenario_formats_agree f g ws :
+  f <> FOther -> g <> FOther -> scenario_weights f ws = scenario_weights g ws.
+Proof. intros Hf Hg. rewrite !scenario_weights_known by assumption. reflexivity. Qed.
+
+Lemma scenario_requests_no_panic f known reqs : scenario_requests f known reqs <> VPanic.
+Proof. destruct f; cbn [scenario_requests]; try apply convert_no_panic. discriminate. Qed.
